@@ -59,8 +59,10 @@ class RallyRepository:
 
     def update(self, distribution_version):
         try:
+            remote_branches = []
             if self.remote:
-                branch = versions.best_match(git.branches(self.repo_dir, remote=self.remote), distribution_version)
+                remote_branches = git.branches(self.repo_dir, remote=self.remote)
+                branch = versions.best_match(remote_branches, distribution_version)
                 if branch:
                     # Allow uncommitted changes iff we do not have to change the branch
                     self.logger.info(
@@ -85,7 +87,12 @@ class RallyRepository:
                         self.resource_name,
                     )
                     self.logger.warning(msg)
-            branch = versions.best_match(git.branches(self.repo_dir, remote=False), distribution_version)
+            local_branches = git.branches(self.repo_dir, remote=False)
+            branch = versions.best_match(local_branches, distribution_version)
+            # `master` is only a match if the version is newer than *every* versioned branch of the repository. A fresh clone has
+            # only the default branch locally, so the versioned branches that are known from the remote have to be considered too.
+            if branch == "master" and versions.best_match(list(local_branches) + list(remote_branches), distribution_version) != "master":
+                branch = None
             if branch:
                 if git.current_branch(self.repo_dir) != branch:
                     self.logger.info(
